@@ -31,9 +31,10 @@ def parseOut (s : String) : Option (Out × Bool) :=
   | 'v' :: r => (String.ofList r).toNat?.map fun v => (.ok v, false)
   | _ => none
 
-/-- suspensions of a body text: `-` none; `y` yield, `s`/`t` timers: one each; `i` pipe I/O: three -/
+/-- suspensions of a body text: `-` none; `y` yield, `s`/`t` timers: one each; `i` pipe I/O: three;
+`r` woken twice from a helper thread (the second time during the poll the first wake caused): two -/
 def parseSusp (s : String) : Nat :=
-  if s = "-" then 0 else (s.toList.map fun c => if c = 'i' then 3 else 1).sum
+  if s = "-" then 0 else (s.toList.map fun c => if c = 'i' then 3 else if c = 'r' then 2 else 1).sum
 
 def parseObs (tok : String) : Option Obs :=
   match tok.splitOn "." with
@@ -51,6 +52,7 @@ def parseObs (tok : String) : Option Obs :=
   | ["f", t] => t.toNat?.map .fin
   | ["B", t] => t.toNat?.map .brun
   | ["g", t, v] => match t.toNat?, v.toNat? with | some t, some v => some (.got t v) | _, _ => none
+  | ["k", t] => t.toNat?.map .wake
   | ["c", t] => t.toNat?.map .canc
   | ["h", t] => t.toNat?.map .hang
   | ["x", w, p] => match w.toNat?, p.toNat? with | some w, some p => some (.die w p) | _, _ => none
